@@ -5,7 +5,7 @@ PID = "C02"
 
 
 def run(v):
-    n, steps = (48, 30) if v.tier == "quick" else (180, 36)
+    n, steps = (56, 30) if v.tier == "quick" else (188, 36)   # histories 48..55 are the snapshot-during-restart scripts
     # quick: deterministic, replayable interleavings only (commits injected at log points inside the
     # protocols); thorough: additionally a real concurrent writer goroutine (schedule-dependent)
     extra = ["-concurrent"] if v.tier == "thorough" else []
